@@ -108,7 +108,7 @@ class Runner:
     def __init__(self):
         self.drv = Driver("gsdriver_cmp")
         self.lines, self.meta = [], []
-        self.res = dict(cases=0, distinct_nontrivial=0, disagreements=[], samples=[], outcomes={}, by_stream={}, accepted=0, identity_checks=0)
+        self.res = dict(cases=0, distinct_nontrivial=0, disagreements=[], samples=[], outcomes={}, by_stream={}, accepted=0, accepted_by_cls={}, identity_checks=0)
 
     def add(self, stream, line, real, note):
         self.lines.append(line)
@@ -128,6 +128,8 @@ class Runner:
             r["outcomes"][key] = r["outcomes"].get(key, 0) + 1
             if real.startswith("ok g="):
                 r["accepted"] += 1
+                ck = note.get("cls", stream)
+                r["accepted_by_cls"][ck] = r["accepted_by_cls"].get(ck, 0) + 1
                 r["identity_checks"] += real.split(" b=")[1].count(",") + real.split(" b=")[1].count(";") + 1
             if note.get("nontrivial", True):
                 r["distinct_nontrivial"] += 1
@@ -232,11 +234,10 @@ def stream_random(R, rng, n_graphs):
             vids = rng.sample(range(1, nv + 4), nv)
         same_kind = rng.random() < 0.5
         k0 = rng.choice(C.KINDS)
-        verts = [C.Vertex(i, C.raw_pose(k0 if same_kind else rng.choice(C.KINDS), BASE[k0] if same_kind else [0.0])) for i in vids]
-        # the pose arrays' contents are irrelevant to construction; only the class matters
-        for v in verts:
-            k = C.KIND_OF[type(v.pose)]
-            v.pose = C.raw_pose(k, BASE[k])
+        verts = []
+        for i in vids:
+            k = k0 if same_kind else rng.choice(C.KINDS)
+            verts.append(C.Vertex(i, C.raw_pose(k, BASE[k])))
         ne = rng.choice([0, 1, 1, 2, 3, 4])
         mode = rng.random()
         unknown_pool = (vids or [1]) + ([97, 98] if mode < 0.35 else [])
@@ -277,9 +278,8 @@ def stream_is_valid(R, rng, n):
                 vid = ids[j] if (j < nids and rng.random() < 0.85) else rng.randrange(1, 5)
                 bound.append(C.Vertex(vid, C.raw_pose(kinds[j], BASE[kinds[j]])))
         e.vertices = bound
-        real = "ok " + C.outcome(e.is_valid) if True else ""
-        if not real.startswith("ok True") and not real.startswith("ok False"):
-            real = "exc " + real[3:]
+        o = C.outcome(e.is_valid)
+        real = ("ok " + o) if o in ("True", "False") else ("exc " + o)
         vl = bound or []
         line = "valid %d %d %s %s" % (0 if bound is None else 1, len(vl), " ".join(vdesc_tokens(v) for v in vl), edesc_tokens(e))
         R.add("is_valid", line, real, dict(cls=cls, unbound=bound is None))
